@@ -46,6 +46,9 @@ DialBegin ==
   /\ UNCHANGED <<now, stopped, live, nconn, made, lost, lostexc, wake, lastProbe, lastAnswer, probes, afterStop, eofPending, nextCheck, lastFail, orphans>>
 DialEnd(ok) ==
   /\ loop = "dialing"
+  \* asyncio: stop() cancels the task of a reconnect, so a dial that is still answered after stop() can only be one of
+  \* start()'s own loop (no connection was ever made); the threaded loops cannot recall a dial at all
+  /\ (stopped /\ Fl = "async") => nconn = 0
   /\ IF stopped
        THEN /\ loop' = "idle" /\ orphans' = (IF ok THEN orphans + 1 ELSE orphans)
             /\ UNCHANGED <<nconn, live, made, lastProbe, lastAnswer, wake, lastFail, nextCheck>>
